@@ -145,8 +145,11 @@ def canon_out(result, ids, t0, t1, member_locs):
     for pos, x in enumerate(result):
         k = kind_of(x)
         mt = x.mtime
-        if (k == "dir" and x.location not in member_locs and isinstance(mt, float)
-                and t0 - 1 <= mt <= t1 + 1):
+        # a directory made up by add_missing_directories carries time.time() of the call (the generators'
+        # mtimes are all below 1.5e9, i.e. years before any run).  NOT "its path is no member's path": an
+        # added directory can sit where a relocated symlink member used to be.
+        if (k == "dir" and isinstance(mt, float) and t0 - 1 <= mt <= t1 + 1
+                and (x.mode, x.uid, x.gid) == (0o775, 0, 0)):
             mtq = NOW_Q
         else:
             mtq = q(mt)
